@@ -19,13 +19,19 @@ for d in sorted(glob.glob(V + '/seeded/*/')):
         continue
     caught = {}
     try:
-        for pid in pids:
+        from concurrent.futures import ThreadPoolExecutor
+
+        def run(pid):
             rr = subprocess.run([V + '/check', pid], cwd=V, capture_output=True, text=True)
-            keys = re.findall(r'^FINDING (\S+)', rr.stdout, re.M)
-            if rr.returncode == 1:
+            return pid, rr.returncode, re.findall(r'^FINDING (\S+)', rr.stdout, re.M)
+        first = [run(pids[0])]          # does the extraction once; the rest run on the cached facts
+        with ThreadPoolExecutor(8) as ex:
+            rest = list(ex.map(run, pids[1:]))
+        for pid, rc, keys in first + rest:
+            if rc == 1:
                 caught[pid] = keys
-            elif rr.returncode != 0:
-                caught[pid] = ['EXIT-%d' % rr.returncode]
+            elif rc != 0:
+                caught[pid] = ['EXIT-%d' % rc]
     finally:
         subprocess.run(['git', '-C', '/repo', 'checkout', '--', '.'])
     matrix[label] = {'property': meta['property'], 'caught_by': caught}
